@@ -41,13 +41,31 @@ def spec_index(spec: dict) -> dict:
     return {st["ref"]: i for i, st in enumerate(spec["stages"])}
 
 
+SYN_KINDS = ("before", "after", "on_failure")
+
+
+def spec_children(spec: dict) -> list[dict]:
+    """the child templates of every stage, in a fixed order (their position + 1000 is the oracle's script key)"""
+    return [ch for st in spec["stages"] for kind in SYN_KINDS for ch in st.get(kind, [])]
+
+
+def child_script_id(spec: dict, ref: str) -> int:
+    return 1000 + [ch["ref"] for ch in spec_children(spec)].index(ref)
+
+
+def tmpl_str(spec: dict, st: dict, kind: str) -> str:
+    return ",".join("%d:%d:%d" % (child_script_id(spec, ch["ref"]), len(ch.get("tasks", [])), 1 if ch.get("chain") else 0)
+                    for ch in st.get(kind, []))
+
+
 def spec_to_oracle(spec: dict) -> str:
     idx = spec_index(spec)
     out = ["CASE"]
     for st in spec["stages"]:
         ctx = {k: v for k, v in st.get("ctx", {}).items() if k.startswith("k") and k[1:].isdigit()}
         en = st.get("enabled")
-        out.append("STAGE reqs=%s join=%s thr=%d cof=%d fp=%d en=%s mutex=%s choice=%s maxj=%s ctx=%s tasks=%d dis=%s sor=%d conds=%s" % (
+        out.append("STAGE script=%d before=%s after=%s fail=%s reqs=%s join=%s thr=%d cof=%d fp=%d en=%s mutex=%s choice=%s maxj=%s ctx=%s tasks=%d dis=%s sor=%d conds=%s" % (
+            idx[st["ref"]], tmpl_str(spec, st, "before"), tmpl_str(spec, st, "after"), tmpl_str(spec, st, "on_failure"),
             ",".join(str(idx[r]) for r in sorted(st.get("reqs", []), key=lambda r: idx[r])),
             st.get("join", "AND"), st.get("threshold", 0),
             1 if st.get("ctx", {}).get("continuePipelineOnFailure") else 0,
@@ -73,6 +91,16 @@ def spec_to_oracle(spec: dict) -> str:
                 else:
                     toks.append(kind)
             out.append(f"SCRIPT {i} {t} " + " ".join(toks))
+    for ch in spec_children(spec):
+        for t, steps in enumerate(ch.get("tasks", [])):
+            toks = []
+            for step in steps:
+                kind, _, arg = step.partition(":")
+                if arg and kind != "jump":
+                    toks.append(kind + ":" + ",".join(f"{kname(p.split('=')[0])}={p.split('=')[1]}" for p in arg.split(",")))
+                else:
+                    toks.append(kind)
+            out.append(f"SCRIPT {child_script_id(spec, ch['ref'])} {t} " + " ".join(toks))
     return "\n".join(out) + "\n"
 
 
@@ -113,6 +141,7 @@ _MSG_FMT = {
     "PauseTask": lambda q: f"PauseTask({q['si']},{q['task']})",
     "ResumeStage": lambda q: f"ResumeStage({q['si']})",
     "RestartStage": lambda q: f"RestartStage({q['si']})",
+    "ContinueParentStage": lambda q: f"ContinueParentStage({q['si']},{'B' if 'BEFORE' in str(q.get('phase')) else 'A'},{q['retry_count']})",
 }
 
 
@@ -121,21 +150,32 @@ def signame(s) -> int:
 
 
 def canon(a: dict, idx: dict, nexec: int) -> str:
+    """idx: spec ref -> index of the top-level stages; synthetic children are appended in row (creation) order"""
     b = [f"W {a['wf']} {1 if a['canceled'] else 0} |"]
-    stages = {s["ref"]: s for s in a["stages"]}
-    for ref, i in sorted(idx.items(), key=lambda p: p[1]):
-        s = stages[ref]
-        b.append(" S%d %s %d%d v%d f%d [%s] b%d j%d q%d g%s e%d p%d h[%s] {%s} {%s} [%s];" % (
-            i, s["status"], s["started"], s["ended"], s["version"], s["fired"],
+    idx = dict(idx)
+    pos = {}                                    # stage id -> model index (row order = creation order)
+    for i, s in enumerate(a["stages"]):
+        pos[s["id"]] = i
+        if s["ref"] in idx and s["parent"] is None:
+            if idx[s["ref"]] != i:
+                raise AssertionError(f"row order of top-level stages differs from the spec: {s['ref']} at {i}")
+        else:
+            idx.setdefault(s["ref"], i)
+    for i, s in enumerate(a["stages"]):
+        b.append(" S%d u%s%s n%d %s %d%d v%d f%d [%s] b%d j%d q%d g%s e%d p%d h[%s] {%s} {%s} [%s];" % (
+            i, "-" if s["parent"] is None else pos.get(s["parent"], "?"),
+            "-" if not s["owner"] else ("B" if "BEFORE" in s["owner"] else "A"), s.get("onfail", 0),
+            s["status"], s["started"], s["ended"], s["version"], s["fired"],
             ",".join(str(idx[r]) for r in s["completed_branches"]), s["bypass"], s["jump_count"] or 0, s["buffered"],
             "-" if s["signal"] is None else str(signame(s["signal"])), s["has_exception"], s.get("plan_pending", 0),
             ",".join(str(x) for x in sorted(kname(k) for k in s.get("hydrated", []) if k.startswith("k") and k[1:].isdigit())),
             kv_str(s["user_ctx"]), kv_str({k: v for k, v in s["outputs"].items() if k.startswith("k") and k[1:].isdigit()}),
             ",".join(t[0] + ("+" if t[2] else "-") for t in s["tasks"])))
+    idx = {**idx, **{sid: i for sid, i in pos.items()}}
     b.append(" | Q")
     for q in a["queue"]:
         q = dict(q)
-        q["si"] = idx.get(q["stage"], "?")
+        q["si"] = pos.get(q.get("stage_id"), idx.get(q["stage"], "?"))
         q["ti"] = idx.get(q.get("target"), "?")
         q["sig"] = signame(q.get("signal"))
         f = _MSG_FMT.get(q["type"])
@@ -311,6 +351,30 @@ def families() -> dict[str, dict]:
     f["first_of_leaf"] = {"stages": [S("A"), S("B", ["A"]), S("C", ["A"], tasks=[["ok"], ["ok"], ["ok"]]),
                                      S("J", ["B", "C"], join="DISCRIMINATOR")]}
     f["taskless"] = {"stages": [S("A", tasks=[]), S("B", ["A"])]}
+    f.update(syn_families())
+    return f
+
+
+def syn_families() -> dict[str, dict]:
+    """synthetic stages: before / after / on-failure children planned by a StageDefinitionBuilder"""
+    f = {}
+    f["syn_before_after"] = {"stages": [S("A", tasks=[["ok:k1=1"]], before=[S("A.b0")], after=[S("A.a0")]), S("B", ["A"])]}
+    f["syn_before_chain"] = {"stages": [S("A", before=[S("A.b0"), S("A.b1", chain=True)]), S("B", ["A"])]}
+    f["syn_par_before"] = {"stages": [S("A", before=[S("A.b0"), S("A.b1")]), S("B", ["A"])]}
+    f["syn_two_after"] = {"stages": [S("A", after=[S("A.a0"), S("A.a1")]), S("B", ["A"])]}
+    f["syn_after_chain"] = {"stages": [S("A", after=[S("A.a0"), S("A.a1", chain=True)]), S("B", ["A"])]}
+    f["syn_on_failure"] = {"stages": [S("A", tasks=[["fail"]], on_failure=[S("A.f0")]), S("B", ["A"])]}
+    f["syn_fail_chain_after"] = {"stages": [S("A", tasks=[["fail"]], on_failure=[S("A.f0"), S("A.f1", chain=True)], after=[S("A.a0")]),
+                                            S("B", ["A"])]}
+    f["syn_taskless_parent"] = {"stages": [S("A", tasks=[], before=[S("A.b0")], after=[S("A.a0")]), S("B", ["A"])]}
+    f["syn_before_fails"] = {"stages": [S("A", before=[S("A.b0", tasks=[["fail"]])]), S("B", ["A"])]}
+    f["syn_after_fails"] = {"stages": [S("A", after=[S("A.a0", tasks=[["fail"]])]), S("B", ["A"])]}
+    f["syn_failc_after"] = {"stages": [S("A", tasks=[["failc"]], after=[S("A.a0")]), S("B", ["A"])]}
+    f["syn_child_failc"] = {"stages": [S("A", before=[S("A.b0", tasks=[["failc"]])], after=[S("A.a0", tasks=[["failc"]])]), S("B", ["A"])]}
+    f["syn_two_parents"] = {"stages": [S("A", before=[S("A.b0")]), S("B", before=[S("B.b0")], after=[S("B.a0", tasks=[["ok"], ["ok"]])]),
+                                       S("C", ["A", "B"])]}
+    f["syn_multitask_child"] = {"stages": [S("A", tasks=[["ok"], ["ok"]], before=[S("A.b0", tasks=[["ok:k1=1"], ["run", "ok"]])],
+                                           after=[S("A.a0", tasks=[["trans", "ok"]])])]}
     return f
 
 
